@@ -33,8 +33,19 @@ def make_params(draw):
 
 
 def make_grad(draw, gi, pi, t, shape, scale=1.0):
+    """Gradient of parameter (gi, pi) at step t.  draw["grad_mode"]:
+       "dense" (default)  generic random normal entries;
+       "sparse_first"     during the first draw.get("sparse_steps", 2) steps the gradient has ONE non-zero entry (every mode-wise Gram matrix
+                          is then exactly diagonal or zero: the diagonal fast path and its later hand-over to the general path are exercised,
+                          and most blocks see an exactly zero gradient); dense afterwards."""
     gen = torch.Generator().manual_seed(hash((draw["seed"], gi, pi, t)) % (2 ** 31))
-    return (torch.randn(tuple(shape), generator=gen, dtype=torch.float64) * scale).to(DT[draw["dtype"]])
+    g = torch.randn(tuple(shape), generator=gen, dtype=torch.float64) * scale
+    if draw.get("grad_mode") == "sparse_first" and t <= draw.get("sparse_steps", 2) and g.numel() > 1:
+        k = int(torch.randint(g.numel(), (1,), generator=gen))
+        flat = torch.zeros(g.numel(), dtype=torch.float64)
+        flat[k] = g.reshape(-1)[k]
+        g = flat.view(g.shape)
+    return g.to(DT[draw["dtype"]])
 
 
 def pc_config(g):
